@@ -176,7 +176,8 @@ def readWord (W : World) (q : Nat) (w : String) : ReadResult :=
   let calls := wordRes.foldl (fun cs r => r.1.2.2.foldl addNew cs) []
   let strictW := wordRes.filterMap fun r => if r.1.1 then some r.2 else none
   let lenW := wordRes.filterMap fun r => if r.1.2.1 then some r.2 else none
-  if !strictW.isEmpty then ⟨sameTarget strictW, sameTarget strictW, calls, cmdPoint⟩ else
+  -- (the lenient reading may pick any within-word expression the word runs into, finished or not)
+  if !strictW.isEmpty then ⟨sameTarget strictW, sameTarget lenW, calls, cmdPoint⟩ else
   -- commands are tried when no literal and no word expression matched
   let calls2 := cmdItems.foldl (fun cs (c, _) => addNew cs ⟨c, "", ""⟩) calls
   let cmds := cmdItems.filterMap fun (c, q') => if (W.fields c).contains w then some q' else none
@@ -238,6 +239,9 @@ structure Answer where
   /-- answers under the two recorded defects (none when they do not apply) -/
   lenientWord : Option (Option (List String))
   lenientLast : Option (Option (List String))
+  /-- under the first recorded defect the word can be read in several ways (which one the script takes
+  depends on table order) -/
+  lenientAmbiguous : Bool
 
 def finish (W : World) (q : Nat) (p wb : String) : List String × List Call × List Call × Bool :=
   let (cands, calls, extra, u) := offer W q p
@@ -282,7 +286,7 @@ def complete (W : World) (ws : List String) (p wb : String) : Answer :=
   let allowed := match lf with
     | some q => let f := finish W q p wb; f.2.2.1.foldl addNew (f.2.1.foldl addNew allowed)
     | none => allowed
-  { strict, ambiguous := ambiguous || amb1, required, allowed, lenientWord, lenientLast }
+  { strict, ambiguous, required, allowed, lenientWord, lenientLast, lenientAmbiguous := amb1 && !amb0 }
 
 /-! ### the world of a grammar -/
 
